@@ -460,3 +460,40 @@ S("r4-benign-div-via-matmul-of-copies", ['C02', 'C04', 'C06', 'C17'], (TT,
 S("r4-benign-interaction-np-multiply", ['C04', 'C05', 'C09'], (UT, "            l.append(x[:, j1] * y[:, j2])", "            column = np.multiply(x[:, j1], y[:, j2])\n            l.append(column)"))
 B("r4-interaction-nan-to-num", "C09", "R9.5", (UT, "            l.append(x[:, j1] * y[:, j2])", "            l.append(np.nan_to_num(x[:, j1] * y[:, j2]))"),
   note="classified as unknown element -> analysis error would also be acceptable")
+
+# ------------------------------------------------------------------ rebuilt rules (benign round 4): breaking forms in the NEW spellings
+_NG_OLD = ("            Ji = np.column_stack([Ji, np.zeros((Ji.shape[0], 1), dtype=\"int\")])\n            Ji[all_zeros, -1] = 1")
+S("b4-benign-new-group-indicator-column", ["C05", "C06", "C10"], (TT, _NG_OLD, "            Ji = np.column_stack([Ji, all_zeros.astype(int)])"))
+B("b4-new-group-inverted-indicator", "C10", "R10.5", (TT, _NG_OLD, "            Ji = np.column_stack([Ji, (~all_zeros).astype(int)])"))
+B("b4-new-group-indicator-first", "C10", "R10.5", (TT, _NG_OLD, "            Ji = np.column_stack([all_zeros.astype(int), Ji])"))
+B("b4-new-group-where-swapped", "C05", "R5.3", (TT, _NG_OLD, "            Ji = np.column_stack([Ji, np.where(all_zeros, 0, 1)])"))
+B("b4-ylevel-indicator-swapped", "C15", "R15.3", (VR, "            value = np.where(x == self.reference, 1, 0)", "            value = np.where(x == self.reference, 0, 1)"))
+B("b4-ylevel-indicator-swapped-c04", "C04", "R4.2", (VR, "            value = np.where(x == self.reference, 1, 0)", "            value = (x != self.reference).astype(int)"))
+S("b4-benign-ylevel-astype", ["C04", "C15"], (VR, "            value = np.where(x == self.reference, 1, 0)", "            value = (x == self.reference).astype(int)"))
+_TL_OLD = ("        tilde_idx = [i for i in range(len(self.tokens)) if is_tilde(self.tokens[i])]\n\n        if len(tilde_idx) > 1:\n"
+           "            raise ScanError(\"There is more than one '~' in model formula\")\n\n        if add_intercept:\n            if len(tilde_idx) == 0:\n"
+           "                self.tokens = [Token(\"NUMBER\", \"1\", 1), Token(\"PLUS\", \"+\")] + self.tokens\n            if len(tilde_idx) == 1:\n"
+           "                self.tokens.insert(tilde_idx[0] + 1, Token(\"NUMBER\", \"1\", 1))\n                self.tokens.insert(tilde_idx[0] + 2, Token(\"PLUS\", \"+\"))\n")
+def _tl(limit, first="tilde_at is None", brk=""):
+    return ("        tilde_count = 0\n        tilde_at = None\n        for i in range(len(self.tokens)):\n            if is_tilde(self.tokens[i]):\n"
+            "                tilde_count += 1\n                if " + first + ":\n                    tilde_at = i\n" + brk +
+            "\n        if tilde_count > " + str(limit) + ":\n            raise ScanError(\"There is more than one '~' in model formula\")\n\n        if add_intercept:\n"
+            "            if tilde_at is None:\n                self.tokens = [Token(\"NUMBER\", \"1\", 1), Token(\"PLUS\", \"+\")] + self.tokens\n            else:\n"
+            "                self.tokens.insert(tilde_at + 1, Token(\"NUMBER\", \"1\", 1))\n                self.tokens.insert(tilde_at + 2, Token(\"PLUS\", \"+\"))\n")
+S("b4-benign-tilde-counter", ["C01", "C12"], (SC, _TL_OLD, _tl(1)))
+B("b4-tilde-counter-allows-two", "C01", "R1.9", (SC, _TL_OLD, _tl(2)))
+B("b4-tilde-counter-stops-at-first", "C01", "R1.9", (SC, _TL_OLD, _tl(1, brk="                break\n")))
+_LK_OLD = ("        for d in self._dicts:\n            try:\n                return d[key]\n            except KeyError:\n                pass\n        raise KeyError(key)\n")
+B("b4-lookup-helper-reversed", "C11", "R11.3", (EV, _LK_OLD,
+  "        found, value = self._lookup(key)\n        if not found:\n            raise KeyError(key)\n        return value\n\n    def _lookup(self, key):\n"
+  "        for d in reversed(self._dicts):\n            try:\n                return True, d[key]\n            except KeyError:\n                pass\n        return False, None\n"))
+B("b4-lookup-helper-miss-returns-none", "C11", "R11.3", (EV, _LK_OLD,
+  "        found, value = self._lookup(key)\n        return value\n\n    def _lookup(self, key):\n"
+  "        for d in self._dicts:\n            try:\n                return True, d[key]\n            except KeyError:\n                pass\n        return False, None\n"))
+S("b4-benign-lookup-helper", ["C11", "C07"], (EV, _LK_OLD,
+  "        found, value = self._lookup(key)\n        if not found:\n            raise KeyError(key)\n        return value\n\n    def _lookup(self, key):\n"
+  "        for d in self._dicts:\n            try:\n                return True, d[key]\n            except KeyError:\n                pass\n        return False, None\n"))
+B("b4-const-offset-old-frame-length", "C16", "R16.3", (CL, "            result = np.ones(len(data_mask.index)) * self.call.args[0].value",
+  "            result = np.full(self._intermediate_data.size, self.call.args[0].value, dtype=float)"))
+B("b4-const-trials-wrong-argument", "C16", "R16.3", (CL, "            result = np.ones(len(data_mask.index)) * self.call.args[1].value",
+  "            result = np.full(len(data_mask.index), self.call.args[0].value, dtype=float)"))
